@@ -1148,7 +1148,10 @@ static int batch(Args const& a, Profile const* prof)
     uint64_t rs = kv.second.front();
     Plan plan = prof->gen(rs, a.tier);
     ChildResult first = run_in_child(plan, prof, scratch);
-    if (first.v.kind != Verdict::VIOLATION || sig_of(first.v) != key)
+    // (a crash is one class whatever signal ends the process: see sim/batch_driver.h)
+    auto same_class = [](std::string const& x, std::string const& y)
+    { return x == y || (x.rfind("crash:", 0) == 0 && y.rfind("crash:", 0) == 0); };
+    if (first.v.kind != Verdict::VIOLATION || !same_class(sig_of(first.v), key))
     {
       printf("HARNESS-ERROR: violation %s of seed %lu did not reproduce on re-execution (got kind=%d tag=%s)\n", tag.c_str(),
              rs, static_cast<int>(first.v.kind), first.v.tag.c_str());
@@ -1165,8 +1168,9 @@ static int batch(Args const& a, Profile const* prof)
     // gate: two more executions in fresh processes, same class, identical hashes
     ChildResult g1 = run_in_child(minp, prof, scratch);
     ChildResult g2 = run_in_child(minp, prof, scratch);
-    if (g1.v.kind != Verdict::VIOLATION || g2.v.kind != Verdict::VIOLATION || sig_of(g1.v) != key || sig_of(g2.v) != key ||
-        g1.hash != g2.hash)
+    bool const is_crash = key.rfind("crash:", 0) == 0;
+    if (g1.v.kind != Verdict::VIOLATION || g2.v.kind != Verdict::VIOLATION || !same_class(sig_of(g1.v), key) ||
+        !same_class(sig_of(g2.v), key) || (!is_crash && g1.hash != g2.hash))
     {
       printf("HARNESS-ERROR: minimised plan for %s (seed %lu) does not replay deterministically\n", tag.c_str(), rs);
       exit_code = 2;
